@@ -265,6 +265,17 @@ impl TypeSerialize {
         if self.type_map.contains_key(t) {
             return Ok(());
         }
+        if let TypeInner::Knot(id) = t.as_ref() {
+            // The knot's target may have been derived outside of this builder (by
+            // another builder alive on the thread, or by a `ty()` call made between
+            // `new()` and `arg()`), in which case it is not in our table yet.
+            let ty = types::internal::find_type(id)
+                .ok_or_else(|| Error::msg("knot TypeId not found"))?;
+            if matches!(*ty, TypeInner::Unknown) {
+                return Err(Error::msg("knot type is still under construction"));
+            }
+            return self.build_type(&ty);
+        }
         let actual_type = if let TypeInner::Var(id) = t.as_ref() {
             self.env.rec_find_type(id)?
         } else {
